@@ -4,6 +4,8 @@ import (
 	"context"
 	"errors"
 	"fmt"
+	"os"
+	"runtime"
 	"strings"
 	"sync"
 	"sync/atomic"
@@ -200,6 +202,30 @@ func c09One(env *fw.Env, i int64) {
 	// ---- senders (run across all generations) ----
 	var stop atomic.Bool
 	nsend := 8
+	// per-sender call tracking for the "calls of a dead generation must return" monitor
+	inCall := make([]atomic.Bool, nsend)
+	startGen := make([]atomic.Int32, nsend)
+	callSeq := make([]atomic.Int64, nsend)
+	curTok := make([]atomic.Pointer[string], nsend)
+	// the stalled-sender schedule: up to stallBudget senders are held right after their frame is on the wire
+	// (vhook hsms.send.afterWrite — a goroutine may be descheduled there for any length of time) until the NEXT
+	// generation is Selected, i.e. across the whole teardown + reconnect of their own generation
+	var stallBudget atomic.Int32
+	hsms.VerifSetHook("hsms.send.afterWrite", func(time.Duration) {
+		for {
+			b := stallBudget.Load()
+			if b <= 0 {
+				return
+			}
+			if stallBudget.CompareAndSwap(b, b-1) {
+				break
+			}
+		}
+		g0 := genCtr.Load()
+		env.Event("senders_stalled_after_write", 1)
+		waitFor(4*time.Second, func() bool { return genCtr.Load() > g0 && rg.Conn.State() == hsms.SelectedState })
+	})
+	defer hsms.VerifSetHook("hsms.send.afterWrite", nil)
 	calls := make([][]*c09Call, nsend)
 	var wg sync.WaitGroup
 	big := strings.Repeat("B", 64<<10)
@@ -218,6 +244,9 @@ func c09One(env *fw.Env, i int64) {
 				}
 				ctx, cancel := context.WithTimeout(context.Background(), 40*time.Second)
 				c.genStart = genCtr.Load()
+				startGen[s].Store(c.genStart)
+				curTok[s].Store(&c.token)
+				inCall[s].Store(true)
 				c.start = peer.Now()
 				switch c.shape {
 				case 0:
@@ -238,6 +267,8 @@ func c09One(env *fw.Env, i int64) {
 				}
 				c.end = peer.Now()
 				c.genEnd = genCtr.Load()
+				inCall[s].Store(false)
+				callSeq[s].Add(1)
 				cancel()
 				calls[s] = append(calls[s], c)
 				if c.err != nil {
@@ -271,6 +302,59 @@ func c09One(env *fw.Env, i int64) {
 			return
 		}
 		env.Event("generations", 1)
+		// Generation pc.Gen is Selected. Every call that STARTED while an earlier generation was current
+		// belongs to a dead generation: it must return (T3 is 30 s) while this generation is still alive —
+		// it is kept alive for as long as this monitor waits.
+		type pend struct {
+			s   int
+			seq int64
+		}
+		// (a call "belongs to a dead generation" when its primary was READ by an earlier generation's peer;
+		// the generation counter at call start is not enough: a call that read the counter just before this
+		// generation was accepted may legitimately be sent — and wait for a withheld reply — on this one)
+		seenOld := map[string]bool{}
+		for _, c := range conns {
+			if c.Gen >= pc.Gen {
+				continue
+			}
+			for _, ev := range c.Log() {
+				if ev.Frame.IsData() && ev.Frame.WBit() {
+					seenOld[c06Token(ev.Frame)] = true
+				}
+			}
+		}
+		var old []pend
+		for s := 0; s < nsend; s++ {
+			seq := callSeq[s].Load()
+			if tok := curTok[s].Load(); inCall[s].Load() && tok != nil && seenOld[*tok] && callSeq[s].Load() == seq {
+				old = append(old, pend{s, seq})
+			}
+		}
+		if len(old) > 0 {
+			env.Event("dead_generation_calls_watched", int64(len(old)))
+			if !waitFor(10*time.Second, func() bool {
+				for _, p := range old {
+					if callSeq[p.s].Load() == p.seq && inCall[p.s].Load() {
+						return false
+					}
+				}
+
+				return true
+			}) {
+				var who []string
+				for _, p := range old {
+					if callSeq[p.s].Load() == p.seq && inCall[p.s].Load() {
+						who = append(who, fmt.Sprintf("sender %d (call started in generation %d)", p.s, startGen[p.s].Load()))
+					}
+				}
+				buf := make([]byte, 4<<20)
+				buf = buf[:runtime.Stack(buf, true)]
+				dumpPath := fmt.Sprintf("%s/waiter-dump-%d.txt", env.OutDir, i)
+				_ = os.WriteFile(dumpPath, buf, 0o644)
+				who = append(who, "full goroutine dump: "+dumpPath)
+				env.Violate("waiter-outlives-its-generation", fmt.Sprintf("generation %d is Selected and alive, yet send call(s) started in an earlier generation have not returned after 10 s (T3=30 s): they were not released when their generation ended: %v; goroutines:\n%s", pc.Gen, who, firstN(strings.Join(libGoroutines(), "\n\n"), 6000)), cs)
+			}
+		}
 		// replay the previous generation's open transactions as unsolicited secondaries
 		mu.Lock()
 		prev := withheld[pc.Gen-1]
@@ -287,6 +371,10 @@ func c09One(env *fw.Env, i int64) {
 			env.Event("drops_with_open_transactions", 1)
 		}
 		env.Event("kind_"+kind, 1)
+		if kind == "fin" || kind == "rst" || kind == "t8" {
+			stallBudget.Store(3) // hold up to 3 senders after their write, across the drop below
+			time.Sleep(3 * time.Millisecond)
+		}
 		switch kind {
 		case "fin":
 			pc.Close()
@@ -324,6 +412,7 @@ func c09One(env *fw.Env, i int64) {
 				env.Violate("t8-not-dropped", "10 s after a frame stalled mid-way (T8 350 ms) the session is still Selected", cs)
 			}
 		}
+		stallBudget.Store(0) // never stall the next generation's own Select / Linktest writes
 		pc.WaitClosed(5 * time.Second)
 	}
 	// final generation to prove recovery, then close
